@@ -34,6 +34,9 @@ type DownCase struct {
 	Stagger bool `json:"stagger"`
 	// SlowReq: the requesting goroutine is descheduled for a moment between sending a remote request and waiting for its result
 	SlowReq bool `json:"slowreq"`
+	// Again (fault cut, when after): the links are cut but can be dialled again; after the notices the nodes reconnect, a new
+	// observer relates to the same target(s), and the target terminates: the first observers must hear nothing more
+	Again bool `json:"again"`
 }
 
 var slowReq atomic.Bool
@@ -63,6 +66,10 @@ type DownLine struct {
 	Notes   [][]Note `json:"notes"` // per observer, what it received afterwards
 	CallRes string   `json:"callres"`
 	CallMs  int      `json:"callms"`
+	// continuation (Again)
+	Extra    []int  `json:"extra"`    // per first observer: notices received after the first phase
+	NewRes   string `json:"newres"`   // result of the new observer's relation request ("" = the continuation did not take place)
+	NewNotes []Note `json:"newnotes"` // what the new observer received
 	// incarnation cases
 	Step  string   `json:"step"`
 	Res   []string `json:"res"`
@@ -222,6 +229,12 @@ func (r *DownRunner) emit(l *DownLine) {
 	if l.Notes == nil {
 		l.Notes = [][]Note{}
 	}
+	if l.Extra == nil {
+		l.Extra = []int{}
+	}
+	if l.NewNotes == nil {
+		l.NewNotes = []Note{}
+	}
 	for i := range l.Notes {
 		if l.Notes[i] == nil {
 			l.Notes[i] = []Note{}
@@ -363,7 +376,12 @@ func (r *DownRunner) RunDown(c *DownCase) error {
 	fault := func() {
 		switch c.Fault {
 		case "cut":
-			p.Relay.Close()
+			if c.Again {
+				p.Relay.Refuse(true)
+				p.Relay.CutAll()
+			} else {
+				p.Relay.Close()
+			}
 		case "stop":
 			p.B.StopForce()
 		case "stopgrace":
@@ -494,6 +512,65 @@ func (r *DownRunner) RunDown(c *DownCase) error {
 		line.Notes = append(line.Notes, append([]Note{}, wa.notes[o]...))
 	}
 	wa.mu.Unlock()
+	line.Extra = []int{}
+	line.NewNotes = []Note{}
+	if c.Again && c.Fault == "cut" && c.When == "after" {
+		// both nodes have to forget the old connection before a new one can be made
+		deadline := time.Now().Add(5 * time.Second)
+		for time.Now().Before(deadline) {
+			_, ea := p.A.Network().Node(p.B.Name())
+			_, eb := p.B.Network().Node(p.A.Name())
+			if ea != nil && eb != nil {
+				break
+			}
+			time.Sleep(5 * time.Millisecond)
+		}
+		p.Relay.Refuse(false)
+		base := Joined(p.B.Name())
+		var cerr error
+		for try := 0; try < 20; try++ {
+			if _, cerr = p.Connect("ck"); cerr == nil {
+				break
+			}
+			time.Sleep(50 * time.Millisecond)
+		}
+		if cerr == nil {
+			dl := time.Now().Add(3 * time.Second)
+			for time.Now().Before(dl) && Joined(p.B.Name()) < base+pool {
+				time.Sleep(2 * time.Millisecond)
+			}
+			var o2 gen.PID
+			var oerr error
+			if e := run(p.A, boss, 2*time.Second, func(pr gen.Process) { o2, oerr = pr.Spawn(mk, gen.ProcessOptions{}, wa) }); e == nil && oerr == nil {
+				if e := run(p.A, o2, 8*time.Second, func(pr gen.Process) { line.NewRes = errText(relate(pr)) }); e != nil {
+					line.NewRes = "hang"
+				}
+				time.Sleep(5 * time.Millisecond)
+				p.B.Kill(tpid)
+				want2 := 0
+				if line.NewRes == "ok" {
+					want2 = 1 + len(c.More)
+				}
+				dl = time.Now().Add(3 * time.Second)
+				for time.Now().Before(dl) {
+					wa.mu.Lock()
+					k := len(wa.notes[o2])
+					wa.mu.Unlock()
+					if k >= want2 {
+						break
+					}
+					time.Sleep(5 * time.Millisecond)
+				}
+				time.Sleep(60 * time.Millisecond)
+				wa.mu.Lock()
+				for i, o := range obs {
+					line.Extra = append(line.Extra, len(wa.notes[o])-len(line.Notes[i]))
+				}
+				line.NewNotes = append(line.NewNotes, wa.notes[o2]...)
+				wa.mu.Unlock()
+			}
+		}
+	}
 	r.emit(&line)
 	r.Cases++
 	return nil
